@@ -632,3 +632,30 @@ def ifdef_rule(macro, defined):
         return text, n
     rule.__name__ = 'ifdef_%s_%s' % (macro, 'defined' if defined else 'undefined')
     return rule
+
+
+def do_while_rule(text):
+    """R14: CBMC 6.11 does not support loop contracts on do/while.  `do BODY while (C);` is rewritten mechanically to
+    `{ int vf_first = 1; while (vf_first || (C)) { vf_first = 0; BODY } }` - same executions, including break and continue
+    (continue re-evaluates C because vf_first is already 0)."""
+    n = 0
+    pos = 0
+    while True:
+        m = re.search(r'\bdo\b\s*\{', text[pos:])
+        if not m:
+            return text, n
+        s = pos + m.start()
+        b = text.index('{', s)
+        e = match_close(text, b)
+        mw = re.match(r'\s*while\s*\(', text[e:])
+        if not mw:
+            pos = e
+            continue
+        p = e + mw.end() - 1
+        pe = match_close(text, p, '(', ')')
+        semi = find_code(text, ';', pe)
+        cond = text[p + 1:pe - 1]
+        body = text[b + 1:e - 1]
+        text = text[:s] + '{ int vf_first = 1; while (vf_first || (' + cond + ')) { vf_first = 0; ' + body + ' } }' + text[semi + 1:]
+        n += 1
+        pos = s + 10
